@@ -378,6 +378,11 @@ class EngineBase:
                 val = self.empty_dict('num' if ty.endswith('->num') else 'any')
             if not isinstance(val, DictObj):
                 raise OutOfSubset(f"store of non-dict into {cls}.{field}")
+            if ty.endswith('->num') and val.vkind != 'num':
+                if z3.is_app(val.vals) and val.vals.decl().kind() == z3.Z3_OP_CONST_ARRAY:
+                    val = self.empty_dict('num') if z3.is_int_value(z3.simplify(val.nk)) else val
+                if val.vkind != 'num':
+                    raise OutOfSubset(f"store of a dict of {val.vkind} into {cls}.{field} (dict of numbers)")
             a = self.heap_arr(st, cls, field + '.keys', BoolArr)
             st.heap[(cls, field + '.keys')] = z3.Store(a, r, val.keys)
             a = self.heap_arr(st, cls, field + '.nk', I)
@@ -606,6 +611,12 @@ class EngineBase:
         old_keys = d.keys
         d.nk = z3.If(has, d.nk, d.nk + 1)
         d.keys = z3.Store(d.keys, kt, z3.BoolVal(True))
+        if d.vkind == 'any' and z3.is_int_value(z3.simplify(old_keys[kt] if False else z3.IntVal(0))) and \
+                ((isinstance(v, Sym) and v.kind == 'num') or (isinstance(v, (int, float)) and not isinstance(v, bool))) and \
+                z3.is_app(d.vals) and d.vals.decl().kind() == z3.Z3_OP_CONST_ARRAY:
+            # a still-empty untyped dict literal receives its first number: it is a dict of numbers
+            d.vkind = 'num'
+            d.vals = z3.K(I, z3.RealVal(0))
         if d.vkind == 'list':
             if not isinstance(v, ListObj):
                 raise OutOfSubset("dict of lists: storing a non-list")
